@@ -794,3 +794,15 @@ pub fn session_errors_accumulate() -> Result<(), Fail> {
   }
   Ok(())
 }
+
+/// fixed well-formed (program, history) cases with shapes the random generator rarely produces
+pub fn fixed_cases() -> Vec<(&'static str, Vec<Vec<Step>>, Vec<Act>)> {
+  use Step::*;
+  vec![
+    // bottom-up: y (popped first: created last) newly requires s = (a, b) while d under the LATER dependency b is still scheduled, and the
+    // EARLIER dependency a is ordered after d (a was new when s was first built): the scheduled dependencies of s must be found
+    ("nested require finds a scheduled task under a later dependency",
+     vec![vec![Read(0, 1), IfOdd(vec![Require(1, 0)], vec![])], vec![Require(2, 0), Require(3, 0)], vec![], vec![Require(4, 0)], vec![Read(1, 0)]],
+     vec![Act::Set(0, 0), Act::Set(1, 0), Act::TopDown(3), Act::TopDown(1), Act::TopDown(0), Act::Set(1, 1), Act::Set(0, 1), Act::BottomUp, Act::TopDown(0)]),
+  ]
+}
